@@ -31,7 +31,7 @@ RULE = ('scenarios = 2 or 3 calls (equal and different arguments) on shared modu
 ASSUMPTIONS = ['interleavings are explored at athlib source-line granularity with at most two forced pre-emptions (three threads: '
                'drawn); switches inside a single line or inside json / jsonschema internals are out of reach',
                'a 50 ms watchdog releases all threads when the token holder blocks on a lock; it can only change the schedule']
-RULE = RULE + '; GENERATED scenarios besides the listed ones: any two or three calls of the catalogue (also from different modules) after a generated single-threaded prefix of 0-3 other calls (partially warm process), caches optionally at their limit; scenarios cover every scoring system and helper, calls that raise, every pair of different functions per shared grader and a cache hit on the newest entry; all body x body double pre-emptions of the two entered public functions'
+RULE = RULE + '; GENERATED scenarios besides the listed ones: the PAIR MATRIX (every pair of catalogue calls working on the same shared object - each grader incl. non-tabulated distances through every entry point, the scoring tables, the caches -, cold) and any two or three calls of the catalogue (also from different modules) after a generated single-threaded prefix of 0-3 other calls (partially warm process), caches optionally at their limit; scenarios cover every scoring system and helper, calls that raise, every pair of different functions per shared grader and a cache hit on the newest entry; all body x body double pre-emptions of the two entered public functions'
 
 GENDERS = 'mf'
 
@@ -144,6 +144,13 @@ def thunks_table():
         'grade-F40-LJ': lambda: athlib.wma_age_grade('f', 40, 'LJ', 5.5),
         'best-F-MAR': lambda: athlib.wma_world_best('f', 'MAR'),
         'best-M-8047': lambda: athlib.wma_world_best('m', '8047'),
+        # non-tabulated distances (interpolated between two rows) through every entry point of each grader
+        'best-M-7K': lambda: athlib.wma_world_best('m', '7K'),
+        'grade-F45-11K': lambda: athlib.wma_age_grade('f', 45, '11K', '50:00'),
+        'factor-F61-5.3M': lambda: athlib.wma_age_factor('f', 61, '5.3M'),
+        'best15-F-7K': lambda: athlib.wma_world_best('f', '7K', year=2015),
+        'factor15-M50-11K': lambda: athlib.wma_age_factor('m', 50, '11K', year=2015),
+        'grade15-M70-7K': lambda: athlib.wma_age_grade('m', 70, '7K', '40:00', year=2015),
         'afactor-M66-60H': lambda: athlib.wma_athlon_age_factor('M', 66, '60H'),
         'afactor-F69-LJ': lambda: athlib.wma_athlon_age_factor('f', 69, 'LJ'),
         'afactor-M50-100': lambda: athlib.wma_athlon_age_factor('M', 50, '100'),
@@ -480,74 +487,128 @@ def _shard(ctx, payload):
     ctx.label('scenario-' + ('warm' if warm else 'cold'))
 
 
+def group_of(name):
+    """Which shared object a catalogue call works on (for the within-group pair matrix)."""
+    head = name.split('-')[0]
+    if head in ('score', 'needed'):
+        return ['athlon'] + (['aag'] if 'age' in name or 'raises' in name or 'decimal' in name else [])
+    if head in ('afactor', 'agrade', 'abest'):
+        return ['aag']
+    if head in ('factor', 'grade', 'best'):
+        return ['ag2023']
+    if head in ('factor15', 'grade15', 'best15'):
+        return ['ag2015']
+    if head in ('sv', 'va'):
+        return ['cache']
+    return [{'hung': 'hung', 'sh': 'sh', 'tyr': 'tyr', 'qk': 'qk', 'bg': 'bg', 'uka': 'uka', 'perf': 'perf', 'norm': 'norm',
+             'impl': 'impl'}.get(head, head)]
+
+
+def pair_matrix():
+    """Every unordered pair (also a call with itself) of catalogue calls that work on the same shared object."""
+    names = sorted(n for n in thunks_table() if not n.endswith('-all'))
+    groups = {}
+    for n in names:
+        for g in group_of(n):
+            groups.setdefault(g, []).append(n)
+    pairs = []
+    for g, ns in sorted(groups.items()):
+        for i, a in enumerate(ns):
+            for b in ns[i:]:
+                if (a, b) not in pairs:
+                    pairs.append((a, b))
+    return pairs
+
+
+def explore(ctx, rng, names, prefix, fill, per, single_cap):
+    """One generated / matrix scenario (cold, after `prefix`): single pre-emptions at the first lines and at up to
+    `single_cap` further points of every thread, early-window and sampled double pre-emptions."""
+    n = len(names)
+    sc = Scenario('gen', names, fill, False, prefix)
+    with _stdout_guard():
+        solo = sc.solo()
+    want = [norm(r) for r, _n in solo]
+    counts = [_n for r, _n in solo]
+    base = {'scenario': 'gen', 'thunks': list(names), 'fill': fill, 'warm': False, 'prefix': list(prefix)}
+
+    def do(schedule, first):
+        case = dict(base, schedule=[list(s) for s in schedule], first=first)
+        with _stdout_guard():
+            sc.setup()
+            r = dsched.Run(sc.thunks, schedule, first=first)
+            res = r.run()
+        got = [norm(x) for x in res]
+        ctx.count()
+        if got != want:
+            ctx.violations(judge(case, got, want, r))
+            ctx.label('diverging-schedules')
+        if r.hung or HUNG:
+            raise Poisoned()
+        if any(0 < s[1] < counts[s[0]] for s in schedule):
+            ctx.nontrivial(('gen', tuple(names), tuple(prefix), fill, first, tuple(schedule)),
+                           dict(case, switched_in=[list(s[3:]) for s in r.switches]) if len(ctx.nt_keys) % 700 == 3 else None)
+    for a in range(n):
+        total = counts[a] + 1
+        if total <= single_cap:
+            pts = set(range(total))
+        else:
+            step = -(-total // single_cap)
+            pts = set(range(rng.randrange(step), total, step)) | set(range(min(6, total)))
+        for k in sorted(pts):
+            b = rng.choice([x for x in range(n) if x != a])
+            do([(a, k, b)], a)
+        for b in range(n):
+            if b == a:
+                continue
+            for k1 in range(min(5, counts[a] + 1)):
+                for k2 in sorted({rng.randrange(counts[b] + 1) for _ in range(per // 2)} | set(range(min(3, counts[b] + 1)))):
+                    do([(a, k1, b), (b, k2, a)], a)
+            for _ in range(per):
+                do([(a, rng.randrange(counts[a] + 1), b), (b, rng.randrange(counts[b] + 1), a)], a)
+
+
 def gen_shard(ctx, payload):
-    """GENERATED scenarios: any two (sometimes three) calls of the catalogue - also pairs from different modules - after a
-    generated single-threaded prefix of 0-3 other calls (a partially warm process: some lazy tables built, some not, caches
-    holding some entries), caches optionally filled to / just below their limit; per scenario every early single
-    pre-emption, sampled later ones, early-window and sampled double pre-emptions."""
-    idx, count, thorough = payload
+    """GENERATED scenarios.  (1) the pair matrix: every pair of catalogue calls working on the same shared object (each
+    grader, the scoring tables, the caches ...), cold.  (2) random scenarios: any two (sometimes three) calls of the
+    catalogue - also from different modules - after a generated single-threaded prefix of 0-3 other calls (a partially warm
+    process: some lazy tables built, some not, caches holding some entries), caches optionally filled to / just below their
+    limit."""
+    idx, pairs, count, thorough = payload
     rng = random.Random(derive_seed(ctx.seed, 'C16-gen', idx))
     names_all = sorted(thunks_table())
     light = [x for x in names_all if not x.endswith('-all')]
-    for j in range(count):
-        if HUNG:
-            ctx.label('shard-abandoned-after-a-thread-never-returned')
-            return
-        n = 3 if rng.random() < 0.15 else 2
-        names = [rng.choice(names_all if rng.random() < 0.1 else light) for _ in range(n)]
-        prefix = [rng.choice(light) for _ in range(rng.choice([0, 0, 1, 1, 2, 3]))]
-        fill = rng.choice([0, 19, 20]) if any(x.startswith(('sv', 'va')) for x in names) else 0
-        sc = Scenario('gen', names, fill, False, prefix)
-        with _stdout_guard():
-            solo = sc.solo()
-        want = [norm(r) for r, _n in solo]
-        counts = [_n for r, _n in solo]
-        base = {'scenario': 'gen', 'thunks': names, 'fill': fill, 'warm': False, 'prefix': prefix}
-        ctx.label('generated-scenarios')
-        ctx.label('generated-prefix-%d' % len(prefix))
-        if len({x.split('-')[0] for x in names}) > 1:
-            ctx.label('generated-cross-function')
-
-        def do(schedule, first):
-            case = dict(base, schedule=[list(s) for s in schedule], first=first)
-            with _stdout_guard():
-                sc.setup()
-                r = dsched.Run(sc.thunks, schedule, first=first)
-                res = r.run()
-            got = [norm(x) for x in res]
-            ctx.count()
-            if got != want:
-                ctx.violations(judge(case, got, want, r))
-                ctx.label('diverging-schedules')
-            if r.hung or HUNG:
-                raise Poisoned()
-            if any(0 < s[1] < counts[s[0]] for s in schedule):
-                ctx.nontrivial(('gen', tuple(names), tuple(prefix), fill, first, tuple(schedule)),
-                               dict(case, switched_in=[list(s[3:]) for s in r.switches]) if len(ctx.nt_keys) % 700 == 3 else None)
-        per = 40 if thorough else 10
-        try:
-            for a in range(n):
-                pts = set(range(min(6, counts[a] + 1)))
-                pts.update(rng.randrange(counts[a] + 1) for _ in range(per))
-                for k in sorted(pts):
-                    b = rng.choice([x for x in range(n) if x != a])
-                    do([(a, k, b)], a)
-                for b in range(n):
-                    if b == a:
-                        continue
-                    for k1 in range(min(5, counts[a] + 1)):
-                        for k2 in sorted({rng.randrange(counts[b] + 1) for _ in range(per // 2)} | set(range(min(3, counts[b] + 1)))):
-                            do([(a, k1, b), (b, k2, a)], a)
-                    for _ in range(per):
-                        do([(a, rng.randrange(counts[a] + 1), b), (b, rng.randrange(counts[b] + 1), a)], a)
-        except Poisoned:
-            ctx.label('shard-abandoned-after-a-thread-never-returned')
-            return
+    per = 40 if thorough else 10
+    try:
+        for a, b in pairs:
+            if HUNG:
+                break
+            fill = rng.choice([0, 19, 20]) if a.startswith(('sv', 'va')) else 0
+            explore(ctx, rng, [a, b], [], fill, per, 400 if thorough else 40)
+            ctx.label('pair-matrix-scenarios')
+        for j in range(count):
+            if HUNG:
+                break
+            n = 3 if rng.random() < 0.15 else 2
+            names = [rng.choice(names_all if rng.random() < 0.1 else light) for _ in range(n)]
+            prefix = [rng.choice(light) for _ in range(rng.choice([0, 0, 1, 1, 2, 3]))]
+            fill = rng.choice([0, 19, 20]) if any(x.startswith(('sv', 'va')) for x in names) else 0
+            ctx.label('generated-scenarios')
+            ctx.label('generated-prefix-%d' % len(prefix))
+            if len({x.split('-')[0] for x in names}) > 1:
+                ctx.label('generated-cross-function')
+            explore(ctx, rng, names, prefix, fill, per, 100 if thorough else 16)
+    except Poisoned:
+        pass
+    if HUNG:
+        ctx.label('shard-abandoned-after-a-thread-never-returned')
 
 
 def run(ctx):
     thorough = ctx.tier == 'thorough'
-    run_shards(ctx, 'checks.c16', 'gen_shard', [(i, 60 if thorough else 12, thorough) for i in range(32 if thorough else 16)],
+    pm = pair_matrix()
+    ctx.extra['pair_matrix'] = len(pm)
+    nsh = 32
+    run_shards(ctx, 'checks.c16', 'gen_shard', [(i, pm[i::nsh], 30 if thorough else 6, thorough) for i in range(nsh)],
                disjoint=True)
     payloads = []
     for name, names, fill in SCENARIOS:
